@@ -1,30 +1,138 @@
 (* C04  Table initialisation accepts exactly the well-formed tables.
-   Statements only.  Proved: the initialised flag is set exactly by a successful initialisation; on an uninitialised
-   table every operation reports UNINITIALISED and changes nothing.  The characterisation "succeeds iff well formed",
-   the first-error precedence and the post-state are carried by the executable model reg_init, which mirrors
-   register_init step by step, and are tied by correspondence over the layout grid (DESIGN.md C04, partial). *)
-From Ufw Require Import Base.Bits Model.RegTable Proof.RegLemmas.
+   Statements only (printed by Coq from the lemmas they are closed with); proofs in Proof/RegLemmas.v, Proof/RegInitLemmas.v;
+   model Model/RegTable.v (reg_init mirrors register_init step by step and is tied to it by correspondence over the layout grid).
+   Not a theorem: that after a successful initialisation every register of a writeable area holds its default (the frame argument over
+   the sequence of default stores) - correspondence only. *)
+From Ufw Require Import Base.Bits Model.RegTable Proof.RegLemmas Proof.RegInitLemmas.
 Local Open Scope N_scope.
 
-Theorem C04_failure_uninitialised : forall t r t', reg_init t = (r, t') -> fst r <> ISuccess -> t_init t' = false.
-Proof. exact init_failure_uninit. Qed.
+(* initialisation succeeds exactly when there is an area, the areas and the entries are each ordered and disjoint (every element starts at or behind the end of its predecessor), and the defaults load *)
+Theorem C04_success_iff :
+  forall t : table,
+         let t0 := with_flags t false true in
+         fst (reg_init t) = (ISuccess, 0) <->
+         areas_ordered t /\
+         entries_ordered t /\
+         fst (load_defaults (S (length (t_entries t))) (with_flags (zero_mem_areas t0) true true) 0) = None.
+Proof. exact (@init_success_iff). Qed.
+Print Assumptions C04_success_iff.
+
+(* ... and the defaults load only if every register lies wholly inside one area *)
+Theorem C04_defaults_all_fit :
+  forall (fuel : nat) (t : table) (i : N),
+         fst (load_defaults fuel t i) = None ->
+         (length (t_entries t) <= N.to_nat i + fuel)%nat ->
+         forall (j : nat) (e : entry),
+         (N.to_nat i <= j)%nat -> nth_error (t_entries t) j = Some e -> entry_fits t e = true.
+Proof. exact (@load_defaults_all_fit). Qed.
+Print Assumptions C04_defaults_all_fit.
+
+(* the only other reasons: a register outside one area, or a default its own constraint refuses *)
+Theorem C04_default_codes :
+  forall (fuel : nat) (t : table) (i : N) (r : icode * N),
+         fst (load_defaults fuel t i) = Some r -> fst r = IEntryHole \/ fst r = IEntryDefault.
+Proof. exact (@load_defaults_code). Qed.
+Print Assumptions C04_default_codes.
+
+(* otherwise it reports the FIRST violated rule, in the order: no areas < area order/overlap < entry order/overlap < entry placement/default, with the index of the offending element *)
+Theorem C04_first_error :
+  forall t : table,
+         let t0 := with_flags t false true in
+         match t_areas t with
+         | [] => fst (reg_init t) = (INoAreas, 0)
+         | a0 :: ar =>
+             match first_break a_base a_size a0 ar with
+             | Some (k, p, a) =>
+                 fst (reg_init t) = (if a_base a <? a_base p then IAreaOrder else IAreaOverlap, 1 + N.of_nat k)
+             | None =>
+                 match
+                   match t_entries t with
+                   | [] => None
+                   | e0 :: er => first_break e_addr (fun e : entry => tsize (e_type e)) e0 er
+                   end
+                 with
+                 | Some (k, p, e) =>
+                     fst (reg_init t) = (if e_addr e <? e_addr p then IEntryOrder else IEntryOverlap, 1 + N.of_nat k)
+                 | None =>
+                     fst (reg_init t) =
+                     match
+                       fst (load_defaults (S (length (t_entries t))) (with_flags (zero_mem_areas t0) true true) 0)
+                     with
+                     | Some r => r
+                     | None => (ISuccess, 0)
+                     end
+                 end
+             end
+         end.
+Proof. exact (@init_first_error). Qed.
+Print Assumptions C04_first_error.
+
+(* the area check reports the first area that starts before the end of its predecessor: order fault when it starts before the predecessor itself, overlap otherwise *)
+Theorem C04_area_check :
+  forall (r : list area) (prev : area) (i : N),
+         check_areas prev r i =
+         match first_break a_base a_size prev r with
+         | Some (k, p, a) => Some (if a_base a <? a_base p then IAreaOrder else IAreaOverlap, i + N.of_nat k)
+         | None => None
+         end.
+Proof. exact (@check_areas_spec). Qed.
+Print Assumptions C04_area_check.
+
+(* likewise for the entries *)
+Theorem C04_entry_check :
+  forall (r : list entry) (prev : entry) (i : N),
+         check_entries prev r i =
+         match first_break e_addr (fun e : entry => tsize (e_type e)) prev r with
+         | Some (k, p, e) => Some (if e_addr e <? e_addr p then IEntryOrder else IEntryOverlap, i + N.of_nat k)
+         | None => None
+         end.
+Proof. exact (@check_entries_spec). Qed.
+Print Assumptions C04_entry_check.
+
+(* no such element iff the list is a chain *)
+Theorem C04_first_break_none :
+  forall (A : Type) (start len : A -> N) (r : list A) (prev : A),
+         first_break start len prev r = None <-> chain start len prev r.
+Proof. exact (@first_break_none). Qed.
+Print Assumptions C04_first_break_none.
+
+(* the reported element is the first: everything before it is a chain *)
+Theorem C04_first_break_is_first :
+  forall (A : Type) (start len : A -> N) (r : list A) (prev : A) (k : nat) (p x : A),
+         first_break start len prev r = Some (k, p, x) ->
+         nth_error r k = Some x /\
+         nth_error (prev :: r) k = Some p /\ start x < start p + len p /\ chain start len prev (firstn k r).
+Proof. exact (@first_break_some). Qed.
+Print Assumptions C04_first_break_is_first.
+
+(* a failed initialisation leaves the table uninitialised *)
+Theorem C04_failure_uninitialised :
+  forall (t : table) (r : icode * N) (t' : table),
+         reg_init t = (r, t') -> fst r <> ISuccess -> t_init t' = false.
+Proof. exact (@init_failure_uninit). Qed.
 Print Assumptions C04_failure_uninitialised.
 
-Theorem C04_flag_iff_success : forall t,
-  t_init (snd (reg_init t)) = true -> fst (reg_init t) = (ISuccess, 0) /\ t_during (snd (reg_init t)) = false.
-Proof. exact init_flag_iff_success. Qed.
+(* the initialised flag is set exactly by a successful initialisation *)
+Theorem C04_flag_iff_success :
+  forall t : table,
+         t_init (snd (reg_init t)) = true -> fst (reg_init t) = (ISuccess, 0) /\ t_during (snd (reg_init t)) = false.
+Proof. exact (@init_flag_iff_success). Qed.
 Print Assumptions C04_flag_iff_success.
 
-Theorem C04_uninitialised_operations : forall t, t_init t = false ->
-  (forall idx v c, reg_setx t idx v c = ((AUninit, idx), t)) /\
-  (forall idx, reg_get t idx = ((AUninit, idx), None)) /\
-  (forall cl idx v, reg_bitop cl t idx v = ((AUninit, idx), t)) /\
-  (forall addr n buf, block_write t addr n buf = ((AUninit, addr), t)) /\
-  (forall addr n, block_read t addr n = ((AUninit, addr), [])) /\
-  (forall addr off s, foreach_in t addr off s = ((AUninit, 0), [])) /\
-  sanitise t = ((AUninit, 0), t).
-Proof. exact uninit_everything. Qed.
+(* on an uninitialised table every operation reports UNINITIALISED and changes nothing *)
+Theorem C04_uninitialised_operations :
+  forall t : table,
+         t_init t = false ->
+         (forall (idx : N) (v : rvalue) (c : bool), reg_setx t idx v c = (AUninit, idx, t)) /\
+         (forall idx : N, reg_get t idx = (AUninit, idx, None)) /\
+         (forall (cl : bool) (idx : N) (v : rvalue), reg_bitop cl t idx v = (AUninit, idx, t)) /\
+         (forall (addr n : N) (buf : list N), block_write t addr n buf = (AUninit, addr, t)) /\
+         (forall addr n : N, block_read t addr n = (AUninit, addr, [])) /\
+         (forall (addr off : N) (s : list Z), foreach_in t addr off s = (AUninit, 0, [])) /\
+         sanitise t = (AUninit, 0, t).
+Proof. exact (@uninit_everything). Qed.
 Print Assumptions C04_uninitialised_operations.
+
 
 (* non-vacuity: overlapping areas are reported at the second area; a register straddling the area end at its index *)
 Example C04_example :
